@@ -80,21 +80,23 @@ class FnPointsInitialize(InitializeSparse):
         if label is None:
             self._label = "FNSP"
 
-        super().__init__(self._name, self.num_qubits, params.items(), label)
+        # registers x (n qubits), g (n-1) and c (2)
+        self.num_data_qubits = self.num_qubits
+        super().__init__(self._name, 2 * self.num_data_qubits + 1, params.items(), label)
 
     def _define(self):
         self.definition = self._define_initialize()
 
     def _define_initialize(self):
-        reg_x = QuantumRegister(self.num_qubits, "x")
-        reg_g = QuantumRegister(self.num_qubits - 1, "g")
+        reg_x = QuantumRegister(self.num_data_qubits, "x")
+        reg_g = QuantumRegister(self.num_data_qubits - 1, "g")
         reg_c = QuantumRegister(2, "c")
 
         circuit = QuantumCircuit(reg_x, reg_g, reg_c)
 
         reg_x = reg_x[::-1]  # qiskit reverse (qiskit little-endian)
 
-        bits_z0 = [int(k) for k in f"{0:0{self.num_qubits}b}"]
+        bits_z0 = [int(k) for k in f"{0:0{self.num_data_qubits}b}"]
         for idx_p, (input_z, output_s) in list(enumerate(self.params))[::-1]:
             bits_z = [int(k) for k in input_z]
 
@@ -117,7 +119,7 @@ class FnPointsInitialize(InitializeSparse):
 
             self._flipflop01(bits_z, circuit, reg_x)
 
-            for k in range(2, self.num_qubits):
+            for k in range(2, self.num_data_qubits):
                 if bits_z[k] == 0:
                     circuit.x(reg_x[k])
 
@@ -126,9 +128,9 @@ class FnPointsInitialize(InitializeSparse):
                 if bits_z[k] == 0:
                     circuit.x(reg_x[k])
 
-            circuit.cx(reg_g[self.num_qubits - 2], reg_c[0])
+            circuit.cx(reg_g[self.num_data_qubits - 2], reg_c[0])
 
-            for k in range(self.num_qubits - 1, 1, -1):
+            for k in range(self.num_data_qubits - 1, 1, -1):
                 if bits_z[k] == 0:
                     circuit.x(reg_x[k])
 
